@@ -97,6 +97,13 @@ Theorem C06_one_reply_each_conversation : forall its,
 Proof. exact one_reply_each_items. Qed.
 Print Assumptions C06_one_reply_each_conversation.
 
+(* ... and EVERY frame it makes the server write, in order: the reply of each answered message, the
+   echo of each terminal-sent 0x8003, each platform command issued once the session is joined *)
+Theorem C06_conversation_frames : forall its,
+  map wtag (writes (run_items its)) = items_writes None its.
+Proof. exact conversation_writes_run. Qed.
+Print Assumptions C06_conversation_frames.
+
 (* non-vacuity: every message list has a complete history without absorption; every decodable frame
    gives a well-formed delivered message; a concrete conversation (heartbeat serial 65535,
    registration, a general response, an unsupported id, authentication with the phone as code)
